@@ -13,7 +13,16 @@ Binding 1: a race-detector build (harness/cmd/conc fonts) runs goroutines doing 
 Binding 2: the same build runs 2..32 goroutines (GOMAXPROCS 1,2,4,16 = separate processes, seeded start delays), each doing
           one of read/validate/optimize/stamp/fill/encrypt+decrypt/merge/split/user-font stamp/font lookups/font reload on
           its own copy of an input in its own directory; results are compared with the same operation run alone
-          (spec/ConcDet.tla judges the records); every race-detector report is a violation."""
+          (spec/ConcDet.tla judges the records); every race-detector report is a violation. The inputs include a hand-built
+          "repaired" document (classic xref section without object 0); merge destination / page removal / optimize free objects
+          in it. Every process re-runs the cheap operations alone after its concurrent phase (state left behind), and solo
+          results that fail or vary inside the sequential solo process are re-run in fresh processes.
+Life    : spec/ConcLife.tla enumerates the life-cycle schedules of the cache in one process (first lookup / lookup / reload
+          issued while a directory scan is held open at a gate, gate opening at every position); every schedule is replayed in
+          a FRESH process (harness/cmd/conc life; the sync.Once state exists once per process; gate = a named pipe as the first
+          font file) under a watchdog: a call that never returns is the violation "hang"; results are compared with the model's.
+          Conc.tla also models the Once's internal mutex; Conc_inversion.cfg (Once entered before the load mutex) must be
+          refuted by TLC (NoStuck) on every run. Rounds of the fonts/ops processes run under an in-process watchdog too."""
 import concurrent.futures, json, os, re, shutil, subprocess, time
 import vlib
 
